@@ -50,6 +50,18 @@ func main() {
 		}
 		b, _ := json.MarshalIndent(wf, "", " ")
 		fmt.Println(string(b))
+	case "variants-count":
+		for _, pr := range props.All() {
+			must, benign := 0, 0
+			for _, v := range mutate.For(pr.ID) {
+				if v.Benign {
+					benign++
+				} else {
+					must++
+				}
+			}
+			fmt.Printf("%s %d %d\n", pr.ID, must, benign)
+		}
 	case "warm":
 		if _, err := core.Load(envOr("NPVERIF_REPO", "/repo"), nil); err != nil {
 			fmt.Fprintln(os.Stderr, "warm:", err)
